@@ -79,7 +79,7 @@ def run(prog, rep, tier):
     # "evaluating the same text over the resolved names": the callee is resolved by name in the environment of THIS call,
     # every time (C11's R11.4 / R11.5: getattr chain, no default, no cache), reported here as R12.3
     from . import C11
-    for fn_ in (C11.r11_4, C11.r11_5):
+    for fn_ in (C11.r11_4, C11.r11_5, C11.r11_3):
         sub = rep.sub()
         fn_(prog, sub)
         for it in sub.items:
